@@ -1,5 +1,6 @@
 (* PEL commands of the extracted binary: generators (spec side) and the decode model. *)
 From Coq Require Import List NArith ZArith Bool Arith.
+From PV Require Model.JsonLoads.
 From PV Require Import Base.Bytes Base.Lit Base.Json Base.Utf8 Base.PelTypes Model.Hexdump Model.Parse Model.Render Model.Pel Model.Env Model.Pretty Model.Select Model.Hwdiags
                        Spec.Encode Spec.DocOf Spec.Choice Spec.PublishedTables.
 Import ListNotations.
@@ -77,6 +78,26 @@ Definition run_pel (cmd : text) (args : list bytes) : option text :=
   else if is_cmd cmd (L "pretty") then
     match utf8_decode (arg 1 args) with
     | Some t => Some (render (JStr (pretty_print (nat_arg (arg 0 args)) t)))
+    | None => Some (L "null")
+    end
+  else if is_cmd cmd (L "loads") then
+    (* json.loads of a text: {"ok": value} | {"error": true} | {"beyond": true} *)
+    match utf8_decode (arg 0 args) with
+    | Some t => Some (render (match JsonLoads.loads t with
+                              | JsonLoads.LOk j => JObj [(L "ok", j)]
+                              | JsonLoads.LError => JObj [(L "error", JBool true)]
+                              | JsonLoads.LBeyond => JObj [(L "beyond", JBool true)]
+                              end))
+    | None => Some (L "null")
+    end
+  else if is_cmd cmd (L "dumps4") then
+    (* json.dumps(json.loads(text), indent=4), and the same through prettyPrint at the given width *)
+    match utf8_decode (arg 1 args) with
+    | Some t => Some (render (match JsonLoads.loads t with
+                              | JsonLoads.LOk j => JObj [(L "text", JStr (JsonLoads.dumps4 0 j));
+                                                         (L "printed", JStr (pretty_print (nat_arg (arg 0 args)) (JsonLoads.dumps4 0 j)))]
+                              | _ => JObj [(L "error", JBool true)]
+                              end))
     | None => Some (L "null")
     end
   else if is_cmd cmd (L "decode_reg") then
